@@ -52,7 +52,7 @@ def lit(v: Any) -> str:
         return "TRUE" if v else "FALSE"
     if isinstance(v, (int, float)):
         return str(v)
-    return "'" + str(v).replace("'", "''") + "'"
+    return "'" + str(v).replace("\\", "\\\\").replace("'", "''") + "'"
 
 
 def expr_sql(e: Any, sp: Speller) -> str:
@@ -151,7 +151,12 @@ def render(st: dict[str, Any], sp: Speller) -> str:
     if t == "unset_var":
         return f"{kw('UNSET')} {sp.ident(st['name'])}"
     if t == "select_var":
-        return f"{kw('SELECT')} " + ", ".join("$" + sp.ident(n) for n in st["names"])
+        return f"{kw('SELECT')} " + ", ".join(f"${sp.ident(n)} {kw('AS')} C{i}" for i, n in enumerate(st["names"]))
+    if t == "select_varpred":
+        cols = ", ".join(sp.ident(c) for c in st["cols"]) if st.get("cols") else "*"
+        return f"{kw('SELECT')} {cols} {kw('FROM')} {ref(st['ref'])} {kw('WHERE')} {sp.ident(st['col'])} = ${sp.ident(st['var'])}"
+    if t == "insert_vars":
+        return f"{kw('INSERT INTO')} {ref(st['ref'])} {kw('VALUES')} ({', '.join('$' + sp.ident(n) for n in st['vars'])})"
     if t == "raw_fail":
         return st["sql"]
     raise ValueError(f"cannot render {t}")
